@@ -11,6 +11,13 @@ from .builtins_model import Builder, SRows
 # =====================================================================================
 # state walking: shapes (concrete abstraction) and slots (symbolic leaves)
 # =====================================================================================
+def ctx_eq(a, b):
+    """eq term in the canonical argument order used by Ctx.mk_eq"""
+    if a.sexpr() > b.sexpr():
+        a, b = b, a
+    return eq(a, b)
+
+
 class Slot:
     __slots__ = ("path", "get", "set", "sort")
 
@@ -322,14 +329,16 @@ class JobResult:
 class Job:
     """one function x one parameter shape.  `mk(ctx, env)` returns dict(iargs, ikw, rargs, rkw)."""
     def __init__(self, name, impl, ref, mk, kind="gen", faults=True, closes=True, props=(), overrides="contract",
-                 invariants=None, max_paths=4000, release=True, opts=None, frame_check=True, close_first=False):
+                 invariants=None, max_paths=4000, release=True, opts=None, frame_check=True, close_first=False, thorough=False):
         self.name, self.impl, self.ref, self.mk, self.kind = name, impl, ref, mk, kind
         self.faults, self.closes, self.props = faults, closes, tuple(props)
         self.overrides = overrides
         self.invariants = invariants
         self.max_paths = max_paths
         self.release = release
-        self.opts = opts or {}
+        self.opts = dict(opts or {})
+        if thorough:
+            self.opts["thorough_only"] = True
         self.close_first = close_first
 
 
@@ -444,13 +453,16 @@ class Verifier:
                 self.run_path(ctx)
             except (PathEnd, Infeasible):
                 pass
+            except Diverged as d:
+                if self.final or self.mode != "prove":
+                    raise Budget(f"decision replay diverged in the final round: {d}")
+                self.changed = True
+                continue
             finally:
                 self.result.solver_s += ctx.solver_s
                 self.result.queries += ctx.queries
                 self.result.repolls += getattr(ctx, "repolls", 0)
             work.extend(ctx.pending)
-            if self.changed and not self.final and self.mode == "prove":
-                return
         if self.final:
             self.result.paths = n
 
@@ -486,6 +498,8 @@ class Verifier:
     def run_path(self, ctx):
         job = self.job
         self.setup_modules()
+        import pyvc.values as _v
+        _v._exc_counter[0] = 0
         env = Env(ctx)
         self.env = env
         opts = dict(job.opts)
@@ -986,6 +1000,41 @@ class Verifier:
             self.new_keys = True
         self.cut_enter(ctx, key, w)
 
+    def filter_valid(self, ctx, formulas):
+        """names of the formulas NOT implied by the path condition (model-guided batch refinement)"""
+        live = {n: f for n, f in formulas.items() if f is not True}
+        bad = set(n for n, f in formulas.items() if f is False)
+        for n in bad:
+            live.pop(n, None)
+        while live:
+            r = ctx.check(z3.Not(z3.And(list(live.values()))))
+            if r == z3.unsat:
+                break
+            if r != z3.sat:
+                # unknown: fall back to individual checks
+                for n, f in list(live.items()):
+                    if not ctx.valid(f)[0]:
+                        bad.add(n)
+                break
+            m = ctx.solver.model()
+            dropped = False
+            for n, f in list(live.items()):
+                try:
+                    v = m.eval(f, model_completion=True)
+                except z3.Z3Exception:
+                    v = None
+                if v is not None and z3.is_false(v):
+                    bad.add(n)
+                    del live[n]
+                    dropped = True
+            if not dropped:
+                # model does not falsify any single conjunct decisively: check individually
+                for n, f in list(live.items()):
+                    if not ctx.valid(f)[0]:
+                        bad.add(n)
+                break
+        return bad
+
     def cut_enter(self, ctx, key, w):
         slots = w.slots
         terms = {s.path: s.get() for s in slots}
@@ -1007,17 +1056,15 @@ class Verifier:
                         del cs[name]
             self.cands[key] = cs
         cands = self.cands[key]
-        for name in list(cands):
-            f = cands[name](terms, entry)
-            ok, _ = ctx.valid(f)
-            if not ok:
-                if name.startswith("declared:"):
-                    if self.final:
-                        self.result.record(f"{self.job.name}/inv-declared/{name}", "inv-declared", False,
-                                           detail="declared invariant does not hold on loop entry", trace=list(self.trace))
-                    continue
-                del cands[name]
-                self.changed = True
+        bad = self.filter_valid(ctx, {name: cands[name](terms, entry) for name in cands})
+        for name in bad:
+            if name.startswith("declared:"):
+                if self.final:
+                    self.result.record(f"{self.job.name}/inv-declared/{name}", "inv-declared", False,
+                                       detail="declared invariant does not hold on loop entry", trace=list(self.trace))
+                continue
+            del cands[name]
+            self.changed = True
         if self.final:
             self.result.record(f"{self.job.name}/inv-init/L{key[0][0]}", "inv-init", True)
         # havoc
@@ -1038,21 +1085,21 @@ class Verifier:
         entry = self.open_cuts[key]
         cands = self.cands[key]
         allok = True
-        for name in list(cands):
+        fs = {}
+        for name in cands:
             try:
-                f = cands[name](terms, entry)
+                fs[name] = cands[name](terms, entry)
             except KeyError:
-                f = False
-            ok = f is not False and ctx.valid(f)[0]
-            if not ok:
-                allok = False
-                if self.final or name.startswith("declared:"):
-                    if self.final:
-                        self.result.record(f"{self.job.name}/inv-step/L{key[0][0]}/{name}", "inv-step", False,
-                                           detail=f"invariant {name} is not preserved by the loop body", trace=list(self.trace))
-                else:
-                    del cands[name]
-                    self.changed = True
+                fs[name] = False
+        for name in self.filter_valid(ctx, fs):
+            allok = False
+            if self.final or name.startswith("declared:"):
+                if self.final:
+                    self.result.record(f"{self.job.name}/inv-step/L{key[0][0]}/{name}", "inv-step", False,
+                                       detail=f"invariant {name} is not preserved by the loop body", trace=list(self.trace))
+            else:
+                del cands[name]
+                self.changed = True
         if self.final and allok:
             self.result.record(f"{self.job.name}/inv-step/L{key[0][0]}", "inv-step", True)
 
@@ -1071,12 +1118,28 @@ class Verifier:
                     if sp == z3.IntSort():
                         for d in (1, -1):
                             cs[f"{p} == {q} + {d}"] = (lambda t, e, p=p, q=q, d=d: t[p] == t[q] + d)
+                        cs[f"{p} <= {q}"] = (lambda t, e, p=p, q=q: t[p] <= t[q])
+                        cs[f"{p} < {q}"] = (lambda t, e, p=p, q=q: t[p] < t[q])
+                        cs[f"{q} <= {p}"] = (lambda t, e, p=p, q=q: t[q] <= t[p])
+                        cs[f"{q} < {p}"] = (lambda t, e, p=p, q=q: t[q] < t[p])
                 elif sp == z3.IntSort() and sq == SeqVal:
                     cs[f"{p} == len({q})"] = (lambda t, e, p=p, q=q: t[p] == z3.Length(t[q]))
                     cs[f"{p} <= len({q})"] = (lambda t, e, p=p, q=q: z3.And(t[p] >= 0, t[p] <= z3.Length(t[q])))
                 elif sq == z3.IntSort() and sp == SeqVal:
                     cs[f"{q} == len({p})"] = (lambda t, e, p=p, q=q: t[q] == z3.Length(t[p]))
                     cs[f"{q} <= len({p})"] = (lambda t, e, p=p, q=q: z3.And(t[q] >= 0, t[q] <= z3.Length(t[p])))
+        vs = [p for p, sp in paths if sp == Val]
+        if len(vs) <= 14:
+            for p in vs:
+                cs[f"truthy({p})"] = (lambda t, e, p=p: truthy(t[p]))
+                cs[f"not truthy({p})"] = (lambda t, e, p=p: z3.Not(truthy(t[p])))
+            for i, p in enumerate(vs):
+                for q in vs[i + 1:]:
+                    cs[f"{p} eq {q}"] = (lambda t, e, p=p, q=q: ctx_eq(t[p], t[q]))
+                    cs[f"not {p} eq {q}"] = (lambda t, e, p=p, q=q: z3.Not(ctx_eq(t[p], t[q])))
+                for q in vs:
+                    if q != p:
+                        cs[f"not {p} lt {q}"] = (lambda t, e, p=p, q=q: z3.Not(lt(t[p], t[q])))
         ints = [p for p, sp in paths if sp == z3.IntSort()]
         seqs = [p for p, sp in paths if sp == SeqVal]
         vals = [p for p, sp in paths if sp == Val]
